@@ -196,6 +196,19 @@ check("C16", "exploration",
       "500 quick / 4000 thorough scenarios over <= 4 labels; models whose coefficients (not weights) are symbolic are not generated",
       "real models built symbolically and numerically; equality decided by TLC on exact rational records", "DESIGN 3 C16")
 
+check("C08", "model_checking",
+      "Seeded scenarios (objective over <= 3 labels; 1-2 comparison or gate constraints with weight (max f - min f) + extra; PCBO and "
+      "PCSO) are built on the real classes and taken through to_pubo / to_puso / to_qubo / to_quso; spec/CheckCompose.tla (TLC) computes "
+      "the feasible set and the constrained optimum from the constraints that were PASSED, re-establishes the antecedents (feasible, "
+      "weights > max f - min f) and has one state per (scenario, form, assignment of ALL the form's variables): nothing lies below the "
+      "constrained optimum, every minimiser converts (by the mapping; the implementation's convert_solution table must agree) to a "
+      "feasible f-optimal assignment, the optimum is attained; solve_bruteforce() is feasible, valid and optimal; "
+      "remove_ancilla_from_solution returns exactly the non-ancilla part. The design-level ingredients (PenaltyExact, Exact / "
+      "NeverUndercut) are model-checked in C02/C03/C06/C01.",
+      "bounded: <= 3 problem labels, forms with <= 9 (11 thorough) variables incl. constraint and reduction ancillas, 130 / 900 scenarios; "
+      "known finding F7 (constraint over a label without a term) is reported as KNOWN-FINDING; trusted: TLC, record encoder",
+      "real penalised / reduced forms evaluated by TLC on every assignment against the constrained optimum computed in TLA+", "DESIGN 3 C08")
+
 
 def build():
     props = [json.loads(l)["id"] for l in open(os.path.join(VERIF, "properties.jsonl"))]
